@@ -761,6 +761,26 @@ STDERR_VARIANTS: T.List[T.List[str]] = [['--no-stdsplit'], ['--no-stdsplit', '--
                                         ['--verbose'], ['--print-errorlogs', '--num-processes', '1']]
 
 
+# raw BYTES that are not valid UTF-8 (legacy encodings, truncated sequences, binary junk), placed where TAP does not care:
+# unknown lines, subtest names, explanations, diagnostics, YAML, bail-out reasons, stderr.  (name, stdout, stderr, exit status)
+MESON_BYTES: T.List[T.Tuple[str, bytes, bytes, int]] = [
+    ('bytes_unknown_line_ok', b'1..2\nok 1 - first\nd\xe9but du test\nok 2 - second\n', b'', 0),
+    ('bytes_unknown_line_fail', b'1..2\nok 1 - first\nd\xe9but du test\nnot ok 2 - second\n', b'', 0),
+    ('bytes_in_name_ok', b'ok 1 caf\xe9 cr\xe8me\nok 2 \xff\xfe\xfd\n1..2\n', b'', 0),
+    ('bytes_in_name_fail', b'1..1\nnot ok 1 na\xefve test\n', b'', 0),
+    ('bytes_in_explanation', b'1..3\nok 1 # SKIP pas de r\xe9seau\nnot ok 2 # TODO \xe0 faire\nok 3\n', b'', 0),
+    ('bytes_in_todo_pass', b'ok 1 d\xe9j\xe0 # TODO d\xe9j\xe0 fait\n1..1\n', b'', 0),
+    ('bytes_in_diag_and_yaml', b'TAP version 13\n# commentaire \xe9\nok 1\n  ---\n  msg: "\xe9\xe8\xea"\n  ...\nok 2\n1..2\n', b'', 0),
+    ('bytes_in_bailout', b'1..2\nok 1\nBail out! \xe9chec total\n', b'', 0),
+    ('bytes_truncated_sequences', b'ok 1\n\xe2\x82\n\xf0\x9f\x98\nok 2 \xc3\n1..2\n', b'', 0),
+    ('bytes_binary_junk', b'1..1\n' + bytes(range(0x80, 0x100)) + b'\n\x00\x01\x02\x1b[31mred\x1b[0m\nok 1\n', b'', 0),
+    ('bytes_on_stderr', b'1..1\nok 1\n', b'avertissement: \xe9\xff\n', 0),
+    ('bytes_on_stderr_fail', b'1..1\nnot ok 1 cass\xe9\n', b'erreur: \xe9\xff\n', 0),
+    ('bytes_exit_nonzero', b'1..1\nok 1\nfin \xe9\n', b'', 3),
+    ('bytes_too_few', b'1..3\nok 1\nligne \xe9trange\n', b'', 0),
+]
+
+
 def _read_testlog(bdir: str, logbase: str) -> T.Dict[str, dict]:
     results: T.Dict[str, dict] = {}
     with open(os.path.join(bdir, 'meson-logs', logbase + '.json'), encoding='utf-8') as f:
@@ -770,23 +790,123 @@ def _read_testlog(bdir: str, logbase: str) -> T.Dict[str, dict]:
     return results
 
 
-def _invoke(job: T.Tuple[str, str, str, T.List[str]]) -> dict:
-    """one `meson test` invocation (own log files) -> plain data"""
-    src, bdir, logbase, args = job
-    r = runner.meson(['test', '--no-rebuild', '-C', bdir, '--logbase', logbase] + args, cwd=src, timeout=180)
+def _read_junit(bdir: str, logbase: str) -> dict:
+    """meson-logs/<logbase>.junit.xml as plain data: {'root': attrs, 'suites': {name: {'attrs':..., 'cases': [[name, [child tags]]]}}}"""
+    import xml.etree.ElementTree as ET
+    root = ET.parse(os.path.join(bdir, 'meson-logs', logbase + '.junit.xml')).getroot()
+    suites = {}
+    for su in root.iter('testsuite'):
+        suites[su.get('name', '')] = {'attrs': dict(su.attrib),
+                                      'cases': [[c.get('name', ''), [ch.tag for ch in c]] for c in su.findall('testcase')]}
+    return {'root': dict(root.attrib), 'suites': suites}
+
+
+# a console that encodes strictly, as under any xx_XX.UTF-8 locale (the C/C.UTF-8 locales make Python escape instead)
+STRICT_CONSOLE = {'PYTHONIOENCODING': 'utf-8:strict'}
+
+
+def _invoke(job: T.Tuple[T.Any, ...]) -> dict:
+    """one `meson test` invocation (own log files) -> plain data.  job[4] = True: fresh interpreter with a strict console."""
+    src, bdir, logbase, args = job[:4]
+    argv = ['test', '--no-rebuild', '-C', bdir, '--logbase', logbase] + args
+    if len(job) > 4 and job[4]:
+        r = runner.meson_cold(argv, cwd=src, env=STRICT_CONSOLE, timeout=90)
+    else:
+        r = runner.meson(argv, cwd=src, timeout=180)
     out: dict = {'logbase': logbase, 'args': args, 'rc': r.rc, 'timed_out': r.timed_out, 'traceback': r.traceback, 'brief': r.brief(),
-                 'results': None, 'error': None}
+                 'results': None, 'error': None, 'junit': None, 'strict_console': len(job) > 4 and bool(job[4])}
     try:
         out['results'] = {k: {'result': v.get('result'), 'returncode': v.get('returncode')} for k, v in _read_testlog(bdir, logbase).items()}
     except (OSError, ValueError) as e:
         out['error'] = str(e)
+    try:
+        out['junit'] = _read_junit(bdir, logbase)
+    except Exception as e:
+        out['junit_error'] = f'{type(e).__name__}: {e}'[:200]
     return out
+
+
+JUNIT_BAD_TAGS = {'failure', 'error'}
+KNOWN_JUNIT_TEST_LEVEL = 'junit-suite-good-although-test-level-error'
+
+
+def _judge_junit(chk: common.Check, inv: dict, cases: T.Dict[str, dict], label: str) -> None:
+    """The JUnit report of the same invocation: a TAP test with subtests is a <testsuite>, its subtests are <testcase>s.
+    One testcase per ok/not ok line with number, name and status; the suite is reported bad (failures + errors > 0)
+    iff the TAP test as a whole is bad."""
+    ju = inv.get('junit')
+    if ju is None:
+        if inv.get('results') is not None:
+            chk.count('junit-unreadable')
+        return
+    for tn in sorted(inv['results'] or {}):
+        c = cases.get(tn)
+        if c is None:
+            continue
+        ref = reftap.consume(c['lines'])
+        if ref.ambiguous or not ref.tests:
+            continue            # (a test without subtests is a single testcase of the project's suite)
+        su = next((v for k, v in ju['suites'].items() if k == tn or k.endswith((':' + tn, '.' + tn))), None)
+        w = {'phase': 'meson-test-junit', 'test': tn, 'invocation': inv['args'], 'lines': clip_lines(c['lines']), 'rc': c['rc'],
+             'suite': su, 'reference': ref.summary()}
+        if su is None:
+            chk.violation('junit-suite-missing', w)
+            continue
+        chk.count('monitor:junit-report')
+        cs = su['cases']
+        extra = cs[len(ref.tests):]
+        # ---- one testcase per subtest: number (+ name), status --------------------------------------------------
+        if ref.bailout_line is not None:
+            extra = []          # what follows a Bail out! is not fixed by the statement (see reftap): subtests up to it only
+        if len(cs) < len(ref.tests) or len(extra) > 1 or (extra and extra[0][0].split(' ', 1)[0].isdigit()):
+            chk.violation('junit-testcase-count-differs', w)
+            continue
+        for t, (name, tags) in zip(ref.tests, cs):
+            want_name = f'{t.number} {t.name}'.strip()
+            if name.split(' ', 1)[0] != str(t.number) or (want_name.isprintable() and want_name.isascii() and name != want_name):
+                chk.violation('junit-testcase-name-differs', {**w, 'expected': want_name, 'got': name})
+                break
+            bad_tag = bool(JUNIT_BAD_TAGS & set(tags))
+            skipped = 'skipped' in tags
+            if bad_tag != (t.result in reftap.BAD_STATUSES) or skipped != (t.result == reftap.SKIP):
+                chk.violation(f'junit-testcase-status-differs:{t.result}', {**w, 'testcase': [name, tags]})
+                break
+        # ---- the suite as a whole ------------------------------------------------------------------------------------
+        try:
+            nbad = int(su['attrs'].get('failures', '0')) + int(su['attrs'].get('errors', '0'))
+        except ValueError:
+            chk.violation('junit-suite-attributes-not-numeric', w)
+            continue
+        expect_bad = ref.expect_bad(c['rc'])
+        chk.count('observed:junit:' + ('bad' if expect_bad else 'good'))
+        if (nbad > 0) != expect_bad:
+            if not expect_bad:
+                chk.violation('junit-suite-bad-although-test-good', w)
+            elif ref.bad_subtest():
+                kinds = '+'.join(sorted({t.result for t in ref.tests if t.result in reftap.BAD_STATUSES}))
+                chk.violation(f'junit-suite-good-although-subtest-bad:{kinds}', w)
+            else:
+                # only an error / bail-out event or the exit status makes it bad
+                chk.violation(KNOWN_JUNIT_TEST_LEVEL, w)
+    # the totals of the root element are the sums over the suites
+    try:
+        for attr in ('tests', 'errors', 'failures'):
+            if int(ju['root'].get(attr, '0')) != sum(int(v['attrs'].get(attr, '0')) for v in ju['suites'].values()):
+                chk.violation('junit-root-totals-differ', {'phase': 'meson-test-junit', 'invocation': inv['args'], 'attr': attr,
+                                                           'root': ju['root']})
+                break
+        chk.count('monitor:junit-root-totals')
+    except ValueError:
+        chk.violation('junit-suite-attributes-not-numeric', {'phase': 'meson-test-junit', 'invocation': inv['args'], 'root': ju['root']})
 
 
 def _judge(chk: common.Check, inv: dict, cases: T.Dict[str, dict], label: str) -> None:
     """every test of one invocation against reftap (stdout + exit status only), then the invocation's own exit status"""
     if inv['timed_out'] or inv['traceback']:
-        chk.violation('meson-test-crashed' if inv['traceback'] else 'meson-test-watchdog',
+        import re
+        exc = re.findall(r'^(\w+(?:Error|Exception))\b', inv['brief'].get('err_tail', '') + '\n' + inv['brief'].get('out_tail', ''), re.M)
+        chk.violation(('meson-test-crashed' + (':' + exc[-1] if exc else '') + (':strict-console' if inv.get('strict_console') else ''))
+                      if inv['traceback'] else 'meson-test-watchdog',
                       {'phase': 'meson-test', 'invocation': inv['args'], 'run': inv['brief']})
         return
     if inv['results'] is None:
@@ -806,6 +926,8 @@ def _judge(chk: common.Check, inv: dict, cases: T.Dict[str, dict], label: str) -
             chk.count('observed:meson-test:stream-with-empty-line-before-more')
         if '--verbose' in inv['args'] or tn.startswith('serv_'):
             chk.count('observed:meson-test:verbose-' + ('serial' if _runs_serially(inv, tn, cases) else 'parallel'))
+        if c.get('bytes'):
+            chk.count('observed:meson-test:non-utf8-output' + (':strict-console' if inv.get('strict_console') else ''))
         if c.get('stderr'):
             chk.count('observed:meson-test:tap-like-or-other-stderr' + (':no-stdsplit' if '--no-stdsplit' in inv['args'] else ''))
         chk.case(f'meson:{label}:{tn}')
@@ -922,6 +1044,19 @@ def meson_sample(chk: common.Check) -> None:
             cases[tn] = {'lines': split_stdout(text), 'rc': rc}
             serial_names.append(tn)
             mb.append(f"test('{tn}', py, args: [emit, files('s{i:02d}.tap'), '{rc}'], protocol: 'tap', suite: 'serial', {kw})")
+    # output that is not valid UTF-8 (plus a few seeded random byte lines)
+    bytes_names: T.List[str] = []
+    blist = list(MESON_BYTES)
+    for k in range(3):
+        junk = bytes(rng.randrange(0x80, 0x100) for _ in range(rng.randrange(1, 20)))
+        blist.append((f'bytes_random{k}', b'1..2\nok 1 ' + junk + b'\nx' + junk + b'\n' + rng.choice([b'ok 2\n', b'not ok 2\n']), junk + b'\n', 0))
+    for i, (nm, out, err, rc) in enumerate(blist):
+        text = out.decode('utf-8', errors='replace')
+        files[f'b{i:02d}.out'] = out
+        files[f'b{i:02d}.err'] = err
+        cases[nm] = {'lines': split_stdout(text), 'rc': rc, 'bytes': True}
+        bytes_names.append(nm)
+        mb.append(f"test('{nm}', py, args: [emit2, files('b{i:02d}.out'), '{rc}', files('b{i:02d}.err')], protocol: 'tap', suite: 'bytes')")
     files['meson.build'] = '\n'.join(mb) + '\n'
     runner.write_tree(src, files)
     r = runner.meson(['setup', bdir], cwd=src, timeout=120)
@@ -960,11 +1095,20 @@ def meson_sample(chk: common.Check) -> None:
     for k, one in enumerate(by_prefix('_failed_', 0) + by_prefix('_bailout_', 0) + by_prefix('_clean_', 1) + by_prefix('_upass_', 0) +
                             by_prefix('_clean_', 0)):
         jobs.append((f'verbose-single:{one}', f'single{k}', [one], ['--verbose', one]))
-    todo = [(src, bdir, logbase, args) for _, logbase, _, args in jobs]
+    # undecodable bytes reach the console, the logs and the reports: a real interpreter with a strictly encoding console
+    cold = set()
+    for k, variant in enumerate(([], ['--verbose'], ['--print-errorlogs', '--num-processes', '1'])):
+        jobs.append((f'bytes-strict-console{k}', f'bytes{k}', bytes_names, variant + ['--suite', 'bytes']))
+        cold.add(f'bytes{k}')
+    todo = [(src, bdir, logbase, args, logbase in cold) for _, logbase, _, args in jobs]
     invs = common.pmap(_invoke, todo, min(chk.jobs, 6))
     for (label, _, selected, _), inv in zip(jobs, invs):
         inv['selected'] = selected
         _judge(chk, inv, cases, label)
+        if inv.get('strict_console'):
+            chk.count('observed:meson-test:strict-console-invocations')
+        if inv.get('results') is not None and not (inv['timed_out'] or inv['traceback']):
+            _judge_junit(chk, inv, cases, label)
         chk.count('meson-test-invocations')
     allinv = invs[0]
     if allinv.get('results'):
@@ -1190,6 +1334,8 @@ def main() -> int:
                  ('observed:meson-test:stream-with-empty-line-before-more', 20),
                  ('observed:meson-test:tap-like-or-other-stderr:no-stdsplit', 20), ('monitor:meson-test-exit-status', 10),
                  ('observed:meson-test-exit:all-good', 2), ('observed:meson-test-exit:some-bad', 8),
+                 ('observed:meson-test:non-utf8-output:strict-console', 30), ('monitor:junit-report', 200),
+                 ('observed:junit:bad', 50), ('observed:junit:good', 20), ('monitor:junit-root-totals', 10),
                  ('observed:meson-test:verbose-serial', 30), ('observed:meson-test:verbose-parallel', 5),
                  ('observed:fold-mode:serial+verbose', 500), ('observed:fold-mode:serial', 500), ('observed:fold-mode:parallel+verbose', 500),
                  ('contract:complete.nonzero-exit-is-bad', 100), ('pinned-streams', len(PINNED)),
